@@ -260,6 +260,87 @@ func addressed(op treefs.Op) [][]string {
 	return out
 }
 
+// ---- live histories: several operations on the SAME filespace objects (root and a child
+// view obtained once), so that state kept inside a filespace object is exercised too ----
+
+type liveOp struct {
+	Via string    `json:"via"` // "root" | "child" (the view Filespace("a") obtained before the history)
+	Op  treefs.Op `json:"op"`
+}
+
+type liveWit struct {
+	Init map[string]string `json:"init"`
+	Hist []liveOp          `json:"history"`
+}
+
+func liveAlphabet() []liveOp {
+	var a []liveOp
+	for _, p := range []string{"a/b", "a/b/c", "a/d"} {
+		a = append(a, liveOp{"root", treefs.Op{Kind: "WriteFile", P: p + "/f", Data: "x"}}, liveOp{"root", treefs.Op{Kind: "MkdirAll", P: p}},
+			liveOp{"root", treefs.Op{Kind: "RemoveAll", P: p}}, liveOp{"root", treefs.Op{Kind: "Remove", P: p + "/f"}})
+	}
+	for _, p := range []string{"b", "b/c", "d"} {
+		a = append(a, liveOp{"child", treefs.Op{Kind: "WriteFile", P: p + "/f", Data: "y"}}, liveOp{"child", treefs.Op{Kind: "MkdirAll", P: p}},
+			liveOp{"child", treefs.Op{Kind: "RemoveAll", P: p}}, liveOp{"child", treefs.Op{Kind: "Remove", P: p + "/f"}})
+	}
+	a = append(a, liveOp{"root", treefs.Op{Kind: "Writer", P: "a/b/w", Chunks: []string{"w"}}}, liveOp{"child", treefs.Op{Kind: "Writer", P: "b/w", Chunks: []string{"v"}}},
+		liveOp{"root", treefs.Op{Kind: "CopyDirectory", P: "a/b", Q: "a/e"}}, liveOp{"child", treefs.Op{Kind: "CopyFile", P: "b/f", Q: "d/g"}})
+	return a
+}
+
+// runLive executes a history on a disk and a memory filespace, keeping the same root and child
+// view objects throughout, and judges every step.
+func runLive(init *treefs.Node, hist []liveOp) (kind, clause, detail string) {
+	scratchSeq++
+	base := filepath.Join(scratchBase(), fmt.Sprintf("c02l-%d", scratchSeq))
+	defer os.RemoveAll(base)
+	rootDir := filepath.Join(base, "root")
+	if err := materialise(rootDir, init); err != nil {
+		return "", "", ""
+	}
+	res := fsx.RunSeq(func() {
+		dfs, err := diskfs.NewFilespace(rootDir)
+		if err != nil {
+			return
+		}
+		mfs := memFrom(init)
+		dchild, derr := dfs.Filespace("a")
+		mchild, merr := mfs.Filespace("a")
+		if derr != nil || merr != nil {
+			return
+		}
+		t := init.Clone()
+		for i, lo := range hist {
+			dv, mv := dfs, mfs
+			mop := lo.Op // the model sees the operation through the view chain
+			if lo.Via == "child" {
+				dv, mv = dchild, mchild
+				mop.View = []string{"a"}
+			}
+			o := outcome{}
+			o.disk = fsx.Exec(dv, lo.Op)
+			o.diskAfter, o.diskProbs = fsx.Walk(dfs)
+			o.mem = fsx.Exec(mv, lo.Op)
+			o.memAft, o.memPr = fsx.Walk(mfs)
+			k, c, d := judge(t, mop, o)
+			if k != "" {
+				kind, clause, detail = "live-"+k, c, fmt.Sprintf("step %d of the history (same root and child-view objects throughout): %s", i+1, d)
+				return
+			}
+			e := relax(t, mop, treefs.Apply(t, mop))
+			if e.Class == treefs.MustOK && e.After != nil {
+				t = e.After
+			} else if fsx.FlatKey(o.diskAfter) != fsx.FlatKey(t.Flat()) || fsx.FlatKey(o.memAft) != fsx.FlatKey(t.Flat()) {
+				return // outside the preconditions the backends may legitimately diverge: stop this history
+			}
+		}
+	})
+	if kind == "" && len(res.Panics) > 0 {
+		return "live-panic", "no panic", res.Panics[0].Value
+	}
+	return
+}
+
 func params(thorough bool) (contents []string, nspell int, views [][]string, bufs []int) {
 	if thorough {
 		return []string{"", "x", "yy"}, len(fsx.Spellings), [][]string{nil, {"a"}, {"a", "b"}}, []int{1, 2, 64}
@@ -351,6 +432,52 @@ func run(c *fw.Ctx) {
 			c.Sample(map[string]interface{}{"state": strings.Split(s.Key, "\n"), "ops_applied_to_both_backends": len(alphabet)})
 		}
 	}
+	// live histories on retained filespace objects
+	alpha := liveAlphabet()
+	depth := 3
+	inits := []map[string]string{{"a": "dir"}, {"a": "dir", "a/b": "dir", "a/b/f": "file:0"}}
+	c.R.Info["live_history_alphabet"] = len(alpha)
+	c.R.Info["live_history_depth"] = depth
+	item := 0
+	for _, im := range inits {
+		init := treeFromFlat(im)
+		var rec func(cur []liveOp)
+		rec = func(cur []liveOp) {
+			if len(cur) == depth {
+				item++
+				if !c.Mine(item) || c.Expired() {
+					return
+				}
+				c.R.Evaluations++
+				c.R.Transitions += int64(depth)
+				c.Count("live_histories", 1)
+				kind, clause, detail := runLive(init, cur)
+				if kind != "" {
+					last := cur[len(cur)-1]
+					sg := fmt.Sprintf("C02/%s/%s-via-%s", kind, last.Op.Kind, last.Via)
+					if c.Violated(sg) {
+						c.Violate(&fw.Violation{Signature: sg})
+						return
+					}
+					var hs []string
+					for _, lo := range cur {
+						hs = append(hs, lo.Via+"."+fsx.OpString(lo.Op))
+					}
+					c.Violate(&fw.Violation{Property: "C02", Clause: clause, Signature: sg,
+						Detail:  fmt.Sprintf("initial tree %v\nhistory %s\n%s", im, strings.Join(hs, "; "), detail),
+						Witness: fw.JSON(map[string]interface{}{"live": liveWit{im, cur}})})
+				}
+				return
+			}
+			for _, lo := range alpha {
+				rec(append(append([]liveOp{}, cur...), lo))
+			}
+		}
+		rec(nil)
+	}
+	if c.Expired() {
+		c.NotExhaustive("deadline in live histories")
+	}
 	c.R.Traces = c.R.Transitions
 	c.R.Distinct = c.R.Transitions
 }
@@ -386,6 +513,16 @@ func treeFromFlat(flat map[string]string) *treefs.Node {
 }
 
 func replay(w json.RawMessage) (*fw.Violation, error) {
+	var lw struct {
+		Live *liveWit `json:"live"`
+	}
+	if err := json.Unmarshal(w, &lw); err == nil && lw.Live != nil {
+		kind, clause, detail := runLive(treeFromFlat(lw.Live.Init), lw.Live.Hist)
+		if kind == "" {
+			return nil, nil
+		}
+		return &fw.Violation{Property: "C02", Clause: clause, Signature: "C02/" + kind + "/replay", Detail: detail}, nil
+	}
 	var wit witness
 	if err := json.Unmarshal(w, &wit); err != nil {
 		return nil, err
@@ -401,7 +538,7 @@ func replay(w json.RawMessage) (*fw.Violation, error) {
 
 func init() {
 	fw.Register(&fw.Check{ID: "C02", Level: "model_checking",
-		Rule: "states = every tree of depth<=2 over names {a,b} and the content pool, materialised in a scratch directory (disk) and built through MkdirAll/WriteFile (memory); from every state every op of the alphabet (16 methods x path spellings x contents/chunkings/buffers x root and child views) is applied to BOTH real backends; where the stated preconditions hold results and trees must be equal to each other and to the tree model, otherwise each backend must fail cleanly (no panic, failed op leaves the tree unchanged, nothing outside the addressed paths or outside the host root changes); distinct = (state, op) transitions",
+		Rule: "states = every tree of depth<=2 over names {a,b} and the content pool, materialised in a scratch directory (disk) and built through MkdirAll/WriteFile (memory); from every state every op of the alphabet (16 methods x path spellings x contents/chunkings/buffers x root and child views) is applied to BOTH real backends; where the stated preconditions hold results and trees must be equal to each other and to the tree model, otherwise each backend must fail cleanly (no panic, failed op leaves the tree unchanged, nothing outside the addressed paths or outside the host root changes); plus every history of 3 operations from a 28-entry alphabet (writes, writers, mkdirs, removes, copies through the root and through a child view) executed on the SAME disk and memory filespace objects (root and child view obtained once), judged step by step; distinct = (state, op) transitions and live histories",
 		Run: run, Replay: replay,
-		Assumptions: []string{"disk states are materialised directly (a disk filespace has no state besides its root directory)", "no symlinks/permissions; RemoveAll/Remove of the real root excluded", "a Writer below a missing parent is outside the stated preconditions (error or parents created)"}})
+		Assumptions: []string{"single-operation transitions start from directly materialised disk states; state kept inside filespace objects is exercised by the live histories (depth 3)", "no symlinks/permissions; RemoveAll/Remove of the real root excluded", "a Writer below a missing parent is outside the stated preconditions (error or parents created)"}})
 }
